@@ -3,6 +3,8 @@ package main
 import (
 	"fmt"
 	"math/rand"
+	"reflect"
+	"sync"
 	"unsafe"
 
 	"github.com/welllog/golib/heapz"
@@ -10,13 +12,15 @@ import (
 
 // C04: heapz.Slice, heapz.Heap (element handles), generic Init/Push/Pop/Remove/Fix.
 // case = kind :: n :: init(n) ++ ops, op = [code a b]
-//   kind 0 Slice, 2 generic functions over a []int64 container:
-//     0 Push(a) 1 Pop 2 Peek 3 Len 4 Remove(a) 5 Fix(a) 6 Values[a]=b (if in range); Fix(a)
-//     7 Values[a]=b (if in range); FromSlice / Init   8 PopAll, stop after a values (a <= 0: never)
-//   kind 1 two Heaps h0, h1 sharing one population of handles (handle = creation number):
-//     0 Push(h=a, v=b) 1 Pop(h) 2 Peek(h) 3 Len(h) 4 h.Remove(handle b) 5 h.Fix(handle b)
-//     6 handle a: Value = b/2; heaps[b%2].Fix; heaps[1-b%2].Fix   7 h.PushElement(handle b) if it reports Index() == -1
-//     8 h.Init(k = b%16 values, base-5 digits of b/16)   9 h.PopAll, stop after b values   10 handle a: index field := b (unsafe)
+//
+//	kind 0 Slice, 2 generic functions over a []int64 container:
+//	  0 Push(a) 1 Pop 2 Peek 3 Len 4 Remove(a) 5 Fix(a) 6 Values[a]=b (if in range); Fix(a)
+//	  7 Values[a]=b (if in range); FromSlice / Init   8 PopAll, stop after a values (a <= 0: never)
+//	kind 1 two Heaps h0, h1 sharing one population of handles (handle = creation number):
+//	  0 Push(h=a, v=b) 1 Pop(h) 2 Peek(h) 3 Len(h) 4 h.Remove(handle b) 5 h.Fix(handle b)
+//	  6 handle a: Value = b/2; heaps[b%2].Fix; heaps[1-b%2].Fix   7 h.PushElement(handle b) if it reports Index() == -1
+//	  8 h.Init(k = b%16 values, base-5 digits of b/16)   9 h.PopAll, stop after b values   10 handle a: index field := b (unsafe)
+//
 // values are v*1000 + id, compared on v only.
 func c04cmp(a, b int64) bool { return a/1000 < b/1000 }
 
@@ -34,14 +38,68 @@ func (c *c04cont) Pop() int64 {
 	return x
 }
 
-type c04heapLayout struct {
-	values []*heapz.Element[int64]
-	cmp    func(*heapz.Element[int64], *heapz.Element[int64]) bool
+// unexported state of Heap / Element, located by type (harness/fields.go): the slice of element pointers of a Heap and
+// the unexported integer field of an Element (its index).  Needed by op 8 (handles of the elements Init creates) and
+// op 10 (overwrite the index field); when they cannot be located those two ops are not generated.
+var c04Lay struct {
+	once              sync.Once
+	ok                bool
+	valuesOff, idxOff uintptr
 }
-type c04elemLayout struct {
-	index int
-	heap  *heapz.Heap[int64]
-	Value int64
+
+func c04Probe() {
+	var h heapz.Heap[int64]
+	var e heapz.Element[int64]
+	vf, ok1 := PickField(reflect.TypeOf(h), []string{"values", "elems", "items"}, func(f reflect.StructField) bool {
+		return f.Type == reflect.TypeOf([]*heapz.Element[int64](nil))
+	})
+	xf, ok2 := PickField(reflect.TypeOf(e), []string{"index", "idx", "pos"}, func(f reflect.StructField) bool {
+		return f.Type.Kind() == reflect.Int && f.PkgPath != ""
+	})
+	if !ok1 || !ok2 {
+		InstrLost("heapz.Heap element slice / heapz.Element index field (ops Init-with-handles and index corruption are not generated)")
+		return
+	}
+	// behavioural confirmation: the field found reads what Index() reports
+	h.Init([]int64{3000, 1000, 2000}, c04cmp)
+	vals := *(*[]*heapz.Element[int64])(unsafe.Add(unsafe.Pointer(&h), vf.Offset))
+	if len(vals) != 3 {
+		InstrLost("heapz.Heap element slice (unexpected content)")
+		return
+	}
+	for i, el := range vals {
+		if el == nil || el.Index() != i || *(*int)(unsafe.Add(unsafe.Pointer(el), xf.Offset)) != i {
+			InstrLost("heapz.Element index field (does not read what Index() reports)")
+			return
+		}
+	}
+	c04Lay.valuesOff, c04Lay.idxOff, c04Lay.ok = vf.Offset, xf.Offset, true
+}
+func c04InstrOK() bool { c04Lay.once.Do(c04Probe); return c04Lay.ok }
+func c04HeapValues(h *heapz.Heap[int64]) []*heapz.Element[int64] {
+	if !c04InstrOK() {
+		return nil
+	}
+	return *(*[]*heapz.Element[int64])(unsafe.Add(unsafe.Pointer(h), c04Lay.valuesOff))
+}
+func c04SetIndex(e *heapz.Element[int64], x int) {
+	if c04InstrOK() && e != nil {
+		*(*int)(unsafe.Add(unsafe.Pointer(e), c04Lay.idxOff)) = x
+	}
+}
+
+// a kind-1 case that needs the instrumentation (ops 8 and 10)
+func c04NeedsInstr(in []int64) bool {
+	if len(in) < 2 || in[0] != 1 {
+		return false
+	}
+	_, ops := GetList(in[1:])
+	for i := 0; i+2 < len(ops); i += 3 {
+		if ops[i] == 8 || ops[i] == 10 {
+			return true
+		}
+	}
+	return false
 }
 
 func c04opt(x int64, ok bool) []int64 {
@@ -191,8 +249,7 @@ func c04Impl(in []int64) []int64 {
 				hs[h].Init(vals, c04cmp)
 				base := len(handles)
 				handles = append(handles, make([]*heapz.Element[int64], k)...)
-				lay := (*c04heapLayout)(unsafe.Pointer(&hs[h]))
-				for _, e := range lay.values {
+				for _, e := range c04HeapValues(&hs[h]) {
 					id := e.Value % 1000
 					if id >= int64(base) && id < int64(len(handles)) {
 						handles[id] = e
@@ -210,7 +267,7 @@ func c04Impl(in []int64) []int64 {
 				out = append(out, PutList(l)...)
 			case 10:
 				if a >= 0 && a < int64(len(handles)) {
-					(*c04elemLayout)(unsafe.Pointer(handles[a])).index = int(b)
+					c04SetIndex(handles[a], int(b))
 				}
 			}
 			ix := make([]int64, len(handles))
@@ -427,7 +484,9 @@ func c04Gen(c *Ctx) {
 				names[o[0]] = true
 			}
 			in = append(in, 9, 0, 0, 9, 1, 0)
-			t.Try("exhaustive-kind1", in, l >= 2 && len(names) >= 2)
+			if c04InstrOK() || !c04NeedsInstr(in) {
+				t.Try("exhaustive-kind1", in, l >= 2 && len(names) >= 2)
+			}
 		})
 	}
 	c.SetExhaustive()
@@ -556,7 +615,9 @@ func c04Gen(c *Ctx) {
 			t.C.Count("op-heap", c04HNames[cc])
 		}
 		in = append(in, 9, 0, 0, 9, 1, 0)
-		t.Try("random-kind1", in, nops >= 3 && len(kinds) >= 2)
+		if c04InstrOK() || !c04NeedsInstr(in) {
+			t.Try("random-kind1", in, nops >= 3 && len(kinds) >= 2)
+		}
 	})
 	// ---------------- deep heaps with few ties: 12-60 elements over keys 0..99, then mostly Remove / Fix / SetFix at
 	// random (inner) positions, then a full drain.  A sift that goes the wrong way at an inner node of a tree of 4+
@@ -588,7 +649,9 @@ func c04Gen(c *Ctx) {
 				}
 			}
 			in = append(in, 9, 0, 0, 9, 1, 0)
-			t.Try("deep-kind1", in, true)
+			if c04InstrOK() || !c04NeedsInstr(in) {
+				t.Try("deep-kind1", in, true)
+			}
 		default: // Slice / generic functions
 			kind := int64(0)
 			if i%3 == 2 {
@@ -647,7 +710,9 @@ func c04Gen(c *Ctx) {
 		} else {
 			in = append(in, 5, 0, e)
 		}
-		t.Try("heap-corrupt-index", in, true)
+		if c04InstrOK() || !c04NeedsInstr(in) {
+			t.Try("heap-corrupt-index", in, true)
+		}
 	})
 }
 
